@@ -116,3 +116,46 @@ Proof.
   split; [reflexivity|]. apply osm_value; [exact Hn|lia|exact Hs].
 Qed.
 Print Assumptions mixhelper_history_independent.
+
+(* ---- totality ---- *)
+Definition CallTot (bound : Z) (call : zcache -> Z -> Z -> zcache * res Z) :=
+  forall c n s c' r, Coh c -> call c n s = (c', r) -> 1 <= n <= bound -> Z.min 1 (n - 1) <= s -> exists v, r = Ok v.
+Lemma loopX_total call bound : CallOK call -> CallTot bound call -> forall cnt i n s c m c' r, Coh c -> 2 <= s -> n - 1 <= bound ->
+  1 <= i -> i + Z.of_nat cnt <= n ->
+  loopX call cnt i n s c m = (c', r) -> exists m', r = Ok m'.
+Proof.
+  intros Hok Htot. induction cnt as [|cnt IH]; intros i n s c m c' r Hc Hs Hb Hi Hbd H; cbn [loopX] in H.
+  - injection H as <- <-. eauto.
+  - destruct (call c i s) as [c1 ra] eqn:E1. destruct (Hok _ _ _ _ _ Hc E1) as (Hc1 & _ & _).
+    destruct (Htot _ _ _ _ _ Hc E1 ltac:(lia) ltac:(lia)) as (a & ->).
+    destruct (call c1 (n - i) (s - 1)) as [c2 rb] eqn:E2. destruct (Hok _ _ _ _ _ Hc1 E2) as (Hc2 & _ & _).
+    destruct (Htot _ _ _ _ _ Hc1 E2 ltac:(lia) ltac:(lia)) as (b & ->).
+    exact (IH (i + 1) n s c2 _ c' r Hc2 Hs Hb ltac:(lia) ltac:(lia) H).
+Qed.
+Theorem OsmS_total : forall fuel, CallTot (Z.of_nat fuel) (OsmS fuel).
+Proof.
+  induction fuel as [|f IH]; intros c n s c' r Hc H Hn Hs; [lia|].
+  cbn [OsmS] in H. cbn zeta in H. set (s' := Z.min s (n - 1)) in *.
+  destruct (zfind n s' c) as [v|] eqn:Ef; [injection H as <- <-; eauto|].
+  destruct (Z.leb_spec n 0); [lia|].
+  destruct ((s' <? Z.min 1 (n - 1)) || (s' >? n - 1)) eqn:Eg.
+  { exfalso. apply orb_true_iff in Eg. destruct Eg as [Eg|Eg]; [apply Z.ltb_lt in Eg|rewrite Z.gtb_ltb in Eg; apply Z.ltb_lt in Eg]; unfold s' in *; lia. }
+  destruct (Z.leb_spec n (s' + 1)); [injection H as <- <-; eauto|].
+  destruct (Z.eqb_spec s' 1); [injection H as <- <-; eauto|].
+  assert (Hs2 : 2 <= s') by (unfold s' in *; lia).
+  destruct (OsmS f c (n - 1) (s' - 1)) as [c0 r0] eqn:E0. destruct (OsmS_ok f _ _ _ _ _ Hc E0) as (Hc0 & _ & _).
+  destruct (IH _ _ _ _ _ Hc E0 ltac:(lia) ltac:(lia)) as (a0 & ->).
+  destruct (loopX (OsmS f) (Z.to_nat (n - 2)) 2 n s' c0 (1 + a0)) as [c1 rm] eqn:El.
+  destruct (loopX_total (OsmS f) (Z.of_nat f) (OsmS_ok f) IH (Z.to_nat (n - 2)) 2 n s' c0 (1 + a0) c1 rm Hc0 Hs2 ltac:(lia) ltac:(lia) ltac:(lia) El) as (m' & ->).
+  injection H as <- <-. eauto.
+Qed.
+(* the published helper exactly as the extracted driver evaluates it (a fresh dictionary, fuel n + 2) *)
+Theorem optimal_steps_mixed_value n s : 1 <= n -> Z.min 1 (n - 1) <= s -> optimal_steps_mixed n s = Ok (C n s).
+Proof.
+  intros Hn Hs. unfold optimal_steps_mixed. destruct (OsmS (Z.to_nat (n + 2)) [] n s) as [c' r] eqn:E. cbn [snd].
+  assert (H0 : Coh []) by (intros a b v H; discriminate).
+  assert (Hb : 1 <= n <= Z.of_nat (Z.to_nat (n + 2))) by lia.
+  destruct (OsmS_total _ _ _ _ _ _ H0 E Hb Hs) as (v & ->).
+  destruct (OsmS_ok _ _ _ _ _ _ H0 E) as (_ & _ & Hv). destruct (Hv v eq_refl) as (_ & _ & ->). reflexivity.
+Qed.
+Print Assumptions optimal_steps_mixed_value.
